@@ -558,7 +558,7 @@ class GMM:
         # number of parameters
         n = like.shape[0]
         if self.prec_type == 'full':
-            eta = self.k * (1 + self.dim + (self.dim * self.dim + 1) / 2) - 1
+            eta = self.k * (1 + self.dim + self.dim * (self.dim + 1) / 2) - 1
         else:
             eta = self.k * (1 + 2 * self.dim) - 1
         bicc = bicc - np.log(n) * eta
